@@ -178,7 +178,9 @@ def stepOp (j : Json) : R Json := do
   let g ← asListOf f32Datum (← field j "g")
   let param ← asListOf f32Datum (← field j "param")
   let stats ← getMats (0 : Float) f32Datum j "stats"
-  let preconds ← getMats (0 : Float) f32Datum j "preconds"
+  let before ← getMats (0 : Float) f32Datum j "preconds_before"
+  let after ← getMats (0 : Float) f32Datum j "preconds_after"
+  let sharded ← getBool j "sharded"
   let st : PState Float := {
     diag := ← asListOf f32Datum (← field j "diag")
     dmom := ← asListOf f32Datum (← field j "dmom")
@@ -188,13 +190,11 @@ def stepOp (j : Json) : R Json := do
   let w2 := statW2 cfg.beta2
   let (sp, lo) := if skip then (stats, stats) else
     (specStats G w1 w2 si step stats g, lowStats G w1 w2 si step stats g)
-  let pgS : Option (List Float) := if skip then some g else specPrecondGrad G preconds g
-  let pgL : Option (List Float) := if skip then some g else lowPrecondGrad G preconds g
-  let tr := fun (f : (Float → Float) → (Nat → Float) → Hyper Float → Nat → Bool → List Float → List Float →
-      PState Float → List Float → TOut Float) (pg : Option (List Float)) =>
-    pg.map fun p => f Float.sqrt Float.ofNat h step skip g param st p
-  let oS := tr specTransform pgS
-  let oL := tr lowTransform pgL
+  let used := usedPreconds sharded before after
+  let pgS : Option (List Float) := if skip then some g else specPrecondGrad G used g
+  let pgL : Option (List Float) := if skip then some g else lowPrecondGrad G used g
+  let oS := specUpdate Float.sqrt Float.ofNat sharded G h step skip g param st before after
+  let oL := lowUpdate Float.sqrt Float.ofNat sharded G h step skip g param st before after
   let vec := fun (l : List Float) => listToJson floatToJson l
   let outJ := fun (o : Option (TOut Float)) => match o with
     | some o => obj [("upd", vec o.upd), ("diag", vec o.st.diag), ("dmom", vec o.st.dmom), ("mom", vec o.st.mom),
